@@ -408,6 +408,10 @@ func init() {
 				}
 				runtime.GC()
 			}
+			// companion pass: pointer stores of generated code during a mark phase (free-running)
+			if c.Shard == 0 && !c.Expired() {
+				c10markPass(r)
+			}
 			r.Count("programs", int64(len(progs)))
 		},
 		CrashKey: func(desc string) string {
@@ -423,6 +427,16 @@ func init() {
 			var cs c10case
 			json.Unmarshal(desc, &cs)
 			debug.SetGCPercent(-1)
+			if cs.Prog == "concurrent-mark" {
+				rr := ev.NewReport()
+				c10markPass(rr)
+				for i := range rr.Violations {
+					if rr.Violations[i].Key != "" {
+						return &rr.Violations[i]
+					}
+				}
+				return nil
+			}
 			if p := findProg(cs.Prog); p != nil && findEvent(cs.Event) != nil {
 				return judge(p, cs)
 			}
